@@ -51,6 +51,8 @@ def valid_session(rng, sup, nsends, near_wrap=False, user_ok=True):
         else:
             tid = rng.choice(sorted(tpls))
             ops.append(send_data(rng, tid, tpls[tid], rng.choice([1, 1, 2, 3, 7, 20])))
+        if rng.random() < 0.12:
+            ops.append("exp refresh")      # one pass of the UDP template refresher between two application sends
     ops += ["exp getseq", "exp tids"]
     return ops, tpls
 
@@ -63,12 +65,23 @@ def invalid_ops(rng, sup, tpls, kind):
     """ops that must be refused (or are a known finding); returns (ops, label)"""
     tid = rng.choice(sorted(tpls))
     ies = tpls[tid]
+    def among_valid(bad_rec):
+        """the offending record at a random position of a set of 1..4 records, the others valid (every record is checked,
+        not only the first or the last)"""
+        n = rng.choice([1, 2, 3, 4])
+        pos = rng.randrange(n)
+        recs = ["%d@%s" % (tid, elems(rng, ies, True)) for _ in range(n)]
+        recs[pos] = bad_rec
+        return "exp send %s d %d %s" % (rng.choice("012"), tid, ";".join(recs)), "" if n == 1 else ":pos%d/%d" % (pos + 1, n)
     if kind == "unknown-template":
-        return [send_data(rng, 9999, ies, 1)], kind
+        if rng.random() < 0.5:
+            return [send_data(rng, 9999, ies, 1)], kind
+        op, where = among_valid("9999@%s" % elems(rng, ies, True))
+        return [op], kind + where
     if kind == "field-count":
         wrong = ies + [rng.choice(sup)] if rng.random() < 0.5 or len(ies) < 2 else ies[:-1]
-        recs = "%d@%s" % (tid, elems(rng, wrong, True))
-        return ["exp send %s d %d %s" % (rng.choice("012"), tid, recs)], kind
+        op, where = among_valid("%d@%s" % (tid, elems(rng, wrong, True)))
+        return [op], kind + where
     if kind == "undefined-type":
         return ["exp send 0 u %d -" % tid], kind
     if kind == "oversize":
